@@ -1,6 +1,5 @@
 SPECIFICATION Spec
-CONSTANTS MaxOps = 4  Dev = {}
+CONSTANTS MaxOps = 4  Dev = {"MemoisedPick"}
 INVARIANT ResolvesCurrentSet
 INVARIANT PicksFromCurrentSet
-INVARIANT Export
 CHECK_DEADLOCK FALSE
